@@ -59,20 +59,19 @@ META = {
         "quick": {
             "tables": "all a, b in [1,255] (both symbolic, one query per quarter of the a range); exp/log2 inverse for all a in [1,255], i in [0,254]",
             "lemma": "every constant L in 0..254 x every byte y",
-            "split/recover": "secrets of 16 bytes: (k,n) in {(1,1),(2,2),(2,3),(3,3),(3,5)}; 32 bytes: {(1,1),(2,3),(3,5)}; every secret byte and "
-                             "every random byte symbolic (all lanes at once); every subset of >= k of the n shares (6 sampled subsets for the "
-                             "32-byte 3-of-5 case)",
+            "split/recover": "secrets of 16 bytes: (k,n) in {(1,1),(2,2),(2,3),(3,3),(3,5)}; 32 bytes: {(1,1),(2,3),(3,3)}; every secret byte and "
+                             "every random byte symbolic (all lanes at once); every subset of >= k of the n shares",
             "refusal": "0..5 shares; id, exponent, group threshold / count, member index / threshold and value of every share symbolic "
-                       "over their whole field range; group indices symbolic for up to two shares (others fixed by the shape); share "
+                       "over their whole field range; group index symbolic for one share per shape (others fixed by the shape); share "
                        "lengths 128/256 (also mixed)",
-            "rs1024": "one step from every 30-bit state; left fold and affinity for fully symbolic prefixes of 0..2 symbols; per word "
+            "rs1024": "one step from every 30-bit state; left fold for fully symbolic prefixes of 0..2 symbols, affinity 0..1; per word "
                       "position of 20- and 33-word shares: syndrome map of a single symbolic error on the real function and rejection of "
                       "every single-word substitution by the real rs1024_verify_checksum; 2- and 3-word errors: 16 sampled position "
                       "pairs and 16 sampled position triples per share length, all error symbols symbolic",
             "codec": "Share.mnemonic / Share.parse for 128- and 256-bit shares with every header field and the value symbolic; every "
                      "sequence of 20 / 33 list words (full words, four-letter prefixes, alternating) accepted exactly when checksum, "
                      "padding and threshold <= count hold, and re-encoded identically; one unknown word at positions 0, 4, last",
-            "digest enforced": "k = 2, 3 shares with consistent headers and arbitrary symbolic values (16 / 32 bytes, not produced by a split), "
+            "digest enforced": "k = 2, 3 shares with consistent headers and arbitrary symbolic values (16 bytes; 32 bytes in the thorough tier; not produced by a split), "
                                "at group level and at member level: recover() returns only on paths where HMAC(D[4:], S)[:4] == D[:4] for the "
                                "values interpolated at 254 / 255",
             "feistel": "payload 16 / 32 symbolic bytes, passphrase of 0, 1, 2 (short) and 6, 40 (long, capped at 64 paths / 90 s per length) "
@@ -84,7 +83,7 @@ META = {
             "split/recover": "16- and 32-byte secrets: every k <= n <= 5 with every subset of >= k shares; (k,k) for k = 6..16; "
                              "(1,16),(2,16),(5,16),(9,16),(15,16),(2,8),(7,10),(13,15) with 12 sampled subsets each (sampled - the first k, "
                              "the last k and all n shares always included)",
-            "refusal": "additionally three shares with two symbolic group indices + one fixed, four with one symbolic, six-share shapes "
+            "refusal": "additionally two shares with both group indices symbolic, three shares with two symbolic group indices + one fixed, four with one symbolic, six-share shapes "
                        "(three symbolic group indices exceed the 60000-path budget)",
             "rs1024": "left fold for prefixes of 0..3 symbols (affinity 0..2); every position triple of 20-word (1140) and 33-word (5456) shares with three symbolic "
                       "error symbols (each triple covers its sub-patterns, hence every 1-, 2- and 3-word error)",
@@ -1139,7 +1138,7 @@ def ob_rs_step():
     return r
 
 
-def _rs_fold_path(k):
+def _rs_fold_path(k, maxaff=2):
     """left fold through the first value and affinity for short fully symbolic lists"""
     sh, S = mods()
     real = _STATE["real_polymod"]
@@ -1152,7 +1151,7 @@ def _rs_fold_path(k):
     st = real(list(CS) + p)
     check(whole == real([st ^ 1024] + t), "rs1024_polymod(p + t) != rs1024_polymod([rs1024_polymod(p) ^ 1024] + t) (left fold)", witness=wit,
           fresh=True, timeout_ms=120000)
-    if k > 2:
+    if k > maxaff:
         return Out("ok", whole)     # (three fully symbolic prefix symbols + error symbols: z3 gives up; the step lemma carries the induction)
     # affinity: an error pattern e changes the result by the fold of e from the zero state, whatever the data
     lin = real([1024] + e + [0, 0, 0])
@@ -1162,7 +1161,7 @@ def _rs_fold_path(k):
 
 
 @_with_mods
-def ob_rs_fold(maxk):
+def ob_rs_fold(maxk, maxaff=2):
     nat = loader.native("shamir")
     runs = []
     for k in range(0, maxk + 1):
@@ -1171,7 +1170,7 @@ def ob_rs_fold(maxk):
             env.update({f"e[{i}]": rng.randrange(1024) for i in range(k)})
             env.update({f"t[{i}]": rng.randrange(1024) for i in range(3)})
             return env
-        runs.append(sym_run(lambda: _rs_fold_path(k), expect_classes=["ok"], timeout_ms=120000, gen_env=gen,
+        runs.append(sym_run(lambda: _rs_fold_path(k, maxaff), expect_classes=["ok"], timeout_ms=120000, gen_env=gen,
                             native=lambda env, k=k: nat.rs1024_polymod(list(CS) + [env[f"p[{i}]"] for i in range(k)] + [env[f"t[{i}]"] for i in range(3)]),
                             n_val=6))
     m = merge_runs(runs)
@@ -1737,7 +1736,7 @@ def obligations(tier):
         obs.append(Ob("O2-lemma", ob_lemma, {"lo": lo, "hi": min(lo + 32, 255)}, replay="tables"))
     if q:
         kn = [(16, 1, 1, None), (16, 2, 2, None), (16, 2, 3, None), (16, 3, 3, None), (16, 3, 5, None), (32, 1, 1, None), (32, 2, 3, None),
-              (32, 3, 5, 6)]
+              (32, 3, 3, None)]
         for nb, k, n, lim in kn:
             obs.append(Ob("O2-split-recover", ob_split_recover, {"nb": nb, "k": k, "n": n, "limit": lim}, replay="split_recover"))
     else:
@@ -1750,24 +1749,24 @@ def obligations(tier):
             for k, n in ((1, 16), (2, 16), (5, 16), (9, 16), (15, 16), (2, 8), (7, 10), (13, 15)):
                 obs.append(Ob("O2-split-recover", ob_split_recover, {"nb": nb, "k": k, "n": n, "limit": 12}, replay="split_recover", budget_s=1800))
     # O3
-    shapes = [(), ((None, 128),), ((None, 256),), ((None, 128), (None, 128)), ((0, 128), (1, 256)), ((3, 256), (3, 128)),
+    shapes = [(), ((None, 128),), ((None, 256),), ((None, 128), (2, 128)), ((0, 128), (1, 256)), ((3, 256), (3, 128)),
               ((0, 128), (1, 128), (None, 128)), ((2, 256), (2, 256), (None, 256)), ((0, 128), (0, 128), (1, 128), (1, 128)),
               ((0, 128), (1, 128), (2, 128), (3, 128)), ((0, 256), (1, 256), (2, 256), (3, 256), (4, 256))]
     if not q:
-        shapes += [((None, 256), (None, 256)), ((None, 128), (None, 128), (5, 128)), ((0, 128), (0, 128), (0, 128), (None, 128)),
+        shapes += [((None, 128), (None, 128)), ((None, 256), (None, 256)), ((None, 128), (None, 128), (5, 128)), ((0, 128), (0, 128), (0, 128), (None, 128)),
                    ((0, 128), (1, 128), (2, 128), (3, 128), (4, 128), (5, 128)), ((7, 128), (7, 128), (7, 128), (9, 128), (9, 128), (15, 128)),
                    ((None, 256), (4, 256), (None, 256))]
     for shp in shapes:
         obs.append(Ob("O3-refusal", ob_refusal, {"shape": shp}, replay="refusal", budget_s=600 if q else 3000))
-    dig = [(16, (0, 1), "group", 2), (16, (3, 9), "member", 2), (16, (0, 1, 2), "group", 3), (32, (2, 7, 15), "member", 3)]
+    dig = [(16, (0, 1), "group", 2), (16, (3, 9), "member", 2), (16, (0, 1, 2), "group", 3), (16, (2, 7, 15), "member", 3)]
     if not q:
-        dig += [(32, (0, 1), "group", 2), (32, (5, 6), "member", 2), (16, (1, 4, 11), "member", 3), (32, (0, 8, 15), "group", 3),
+        dig += [(32, (2, 7, 15), "member", 3), (32, (0, 1), "group", 2), (32, (5, 6), "member", 2), (16, (1, 4, 11), "member", 3), (32, (0, 8, 15), "group", 3),
                 (16, (0, 1, 2), "group", 2), (16, (0, 1, 2, 3), "group", 4), (16, (0, 5, 6, 10), "member", 4), (32, (0, 1, 2, 3, 4), "group", 5)]
     for nb, xs, level, th in dig:
         obs.append(Ob("O3-digest-enforced", ob_digest_enforced, {"nb": nb, "xs": xs, "level": level, "threshold": th}, replay="digest"))
     # O4
     obs.append(Ob("O4-rs-step", ob_rs_step, replay="rs"))
-    obs.append(Ob("O4-rs-fold", ob_rs_fold, {"maxk": 2 if q else 3}, replay="rs", budget_s=1200))
+    obs.append(Ob("O4-rs-fold", ob_rs_fold, {"maxk": 2 if q else 3, "maxaff": 1 if q else 2}, replay="rs", budget_s=1200))
     for nwords, step in ((20, 4), (33, 3)):
         for lo in range(0, nwords, step):
             obs.append(Ob("O4-rs-positions", ob_rs_positions, {"nwords": nwords, "lo": lo, "hi": min(lo + step, nwords)}, replay="rs_detect",
